@@ -149,11 +149,11 @@ def check_factory(prog, qn):
             if len(ctors) != 1:
                 probs.append("constructor of %s with %d parameters not found" % (cls, len(n["args"])))
                 continue
-            ps = ctors[0]["params"]
-            for i, (a, p) in enumerate(zip(n["args"], ps)):
-                r = role(a)
-                if norm(r) != norm(p["name"]):
-                    probs.append("%s(...): argument %d is `%s`, the constructor's parameter %d is `%s`" % (cls, i + 1, ir.show(a), i + 1, p["name"]))
+            # roles: an argument that carries the name of ANOTHER parameter of the constructor, with silently convertible
+            # types, is in the wrong position (a parameter that is merely named differently from its argument is not)
+            for (i, j, pi, pj) in swapped_arguments(prog, n, ctors[0]):
+                probs.append("%s(...): `%s` is passed for parameter `%s` and `%s` for parameter `%s` (the types convert silently)" % (
+                    cls, ir.show(n["args"][i]), pi, ir.show(n["args"][j]), pj))
     return probs, fn
 
 
